@@ -250,23 +250,23 @@ Proof.
 Qed.
 
 Lemma sym_ir_step_sound : forall A st si i st' evs, is_simple i = true -> RI A st si ->
-  sym_ir_step w st i = (st', evs) -> forall rest f,
+  sym_ir_step w st i = (st', evs) -> forall rest,
   match io_run (map (cev A) evs) (ir_io si) with
-  | (io', true) => exists si', ir_exec w e false (S f) (i :: rest) si = ir_exec w e false f rest si'
+  | (io', true) => exists si', (forall f, ir_exec w e false (S f) (i :: rest) si = ir_exec w e false f rest si')
                                /\ ir_io si' = io' /\ RI A st' si'
-  | (io', false) => exists si', ir_exec w e false (S f) (i :: rest) si = Stopped si' /\ ir_io si' = io'
+  | (io', false) => exists si', (forall f, ir_exec w e false (S f) (i :: rest) si = Stopped si') /\ ir_io si' = io'
   end.
 Proof.
-  intros A st si i st' evs SI R H rest f. pose proof R as (P & IP & N & CE).
+  intros A st si i st' evs SI R H rest. pose proof R as (P & IP & N & CE).
   destruct i as [src|dst|calcs|c sh b o|c sh b]; try discriminate; cbn [sym_ir_step] in H; injection H as <- <-;
-    cbn [map cev io_run ir_exec].
-  - rewrite (RI_read A st si src R).
+    cbn [map cev io_run].
+  - pose proof (RI_read A st si src R) as RD.
     destruct (do_output e (ir_io si) (into_u8 w (ev A (cell_i st src)))) as [u io'|io'] eqn:O.
-    + exists (ir_set_io si io'). split; [reflexivity|]. split; [reflexivity|].
+    + exists (ir_set_io si io'). split; [intros f; cbn [ir_exec]; rewrite RD, O; reflexivity|]. split; [reflexivity|].
       split; [exact P|]. split; [cbn; rewrite (output_pos _ _ _ _ O); exact IP|]. split; [exact N|exact CE].
-    + exists (ir_set_io si io'). split; reflexivity.
+    + exists (ir_set_io si io'). split; [intros f; cbn [ir_exec]; rewrite RD, O; reflexivity|reflexivity].
   - destruct (do_input e (ir_io si)) as [b io'|io'] eqn:I.
-    + exists (ir_write (ir_set_io si io') dst (from_u8 w b)). split; [reflexivity|]. split; [reflexivity|].
+    + exists (ir_write (ir_set_io si io') dst (from_u8 w b)). split; [intros f; cbn [ir_exec]; rewrite I; reflexivity|]. split; [reflexivity|].
       destruct (input_value _ _ _ I) as (_ & IP' & _).
       split; [exact P|]. split; [cbn; rewrite IP', IP, Z2Nat.inj_add by lia; cbn; lia|]. split; [cbn; lia|].
       intros k. cbn [ir_write ir_set_io ir_tape ir_ptr]. rewrite MachineProofs.tget_tset.
@@ -274,8 +274,8 @@ Proof.
       destruct (dst =? k) eqn:E.
       * apply Z.eqb_eq in E. subst k. rewrite Z.eqb_refl. apply (from_u8_ainp A (s_n st) _ _ _ N IP I).
       * destruct (a_ptr A + dst =? a_ptr A + k) eqn:E2; [apply Z.eqb_eq in E2; apply Z.eqb_neq in E; lia|]. apply CE.
-    + exists (ir_set_io si io'). split; reflexivity.
-  - exists (ir_calc w calcs si). split; [reflexivity|].
+    + exists (ir_set_io si io'). split; [intros f; cbn [ir_exec]; rewrite I; reflexivity|reflexivity].
+  - exists (ir_calc w calcs si). split; [intros f; reflexivity|].
     unfold ir_calc. destruct (ir_calc_fold (map (fun ce => (fst ce, eval w (snd ce) (ir_read si))) calcs) si) as (E1 & E2 & E3).
     split; [exact E3|]. split; [rewrite E2; exact P|]. split; [rewrite E3; exact IP|]. split; [exact N|].
     intros k. rewrite E1. rewrite cell_i_of. cbn [set_ci s_ci s_d].
@@ -291,25 +291,26 @@ Proof.
     unfold ev. rewrite (psubst_sound w Hw). apply eval_ext. intros x. apply (RI_read A st si x R).
 Qed.
 
-Lemma sym_ir_sound : forall pre, forallb is_simple pre = true -> forall A st si st' evs rest f, RI A st si ->
+Lemma sym_ir_sound : forall pre, forallb is_simple pre = true -> forall A st si st' evs rest, RI A st si ->
   sym_ir w pre st = (st', evs) ->
   match io_run (map (cev A) evs) (ir_io si) with
-  | (io', true) => exists si', ir_exec w e false (length pre + f) (pre ++ rest) si = ir_exec w e false f rest si'
+  | (io', true) => exists si', (forall f, ir_exec w e false (length pre + f) (pre ++ rest) si = ir_exec w e false f rest si')
                                /\ ir_io si' = io' /\ RI A st' si'
-  | (io', false) => exists si', ir_exec w e false (length pre + f) (pre ++ rest) si = Stopped si' /\ ir_io si' = io'
+  | (io', false) => exists si', (forall f, ir_exec w e false (length pre + f) (pre ++ rest) si = Stopped si') /\ ir_io si' = io'
   end.
 Proof.
-  induction pre as [|i pre IH]; intros SP A st si st' evs rest f R H; cbn [sym_ir] in H.
+  induction pre as [|i pre IH]; intros SP A st si st' evs rest R H; cbn [sym_ir] in H.
   - injection H as <- <-. cbn. exists si. split; [reflexivity|]. split; [reflexivity|exact R].
   - cbn [forallb] in SP. apply andb_prop in SP. destruct SP as [Si SP].
     destruct (sym_ir_step w st i) as [st1 e1] eqn:S1. destruct (sym_ir w pre st1) as [st2 e2] eqn:S2.
     injection H as <- <-. rewrite map_app, io_run_app.
-    pose proof (sym_ir_step_sound A st si i st1 e1 Si R S1 (pre ++ rest) (length pre + f)) as ST.
+    pose proof (sym_ir_step_sound A st si i st1 e1 Si R S1 (pre ++ rest)) as ST.
     destruct (io_run (map (cev A) e1) (ir_io si)) as [io1 [|]].
-    + destruct ST as (si1 & E1 & I1 & R1). specialize (IH SP A st1 si1 st2 e2 rest f R1 S2). rewrite I1 in IH.
-      cbn [length app plus]. rewrite E1.
-      destruct (io_run (map (cev A) e2) io1) as [io2 [|]]; exact IH.
-    + destruct ST as (si1 & E1 & I1). exists si1. cbn [length app plus]. split; [exact E1|exact I1].
+    + destruct ST as (si1 & E1 & I1 & R1). specialize (IH SP A st1 si1 st2 e2 rest R1 S2). rewrite I1 in IH.
+      destruct (io_run (map (cev A) e2) io1) as [io2 [|]].
+      * destruct IH as (si2 & E2 & I2 & R2). exists si2. split; [intros f; cbn [length app plus]; rewrite E1; apply E2|]. split; assumption.
+      * destruct IH as (si2 & E2 & I2). exists si2. split; [intros f; cbn [length app plus]; rewrite E1; apply E2|exact I2].
+    + destruct ST as (si1 & E1 & I1). exists si1. split; [intros f; cbn [length app plus]; apply E1|exact I1].
 Qed.
 
 (** ** bytecode side *)
@@ -657,24 +658,42 @@ Proof.
   - destruct (bc_read w s a). apply (IH _ _ H T _ L').
 Qed.
 
-(** [reach s s']: every terminating run from [s'] is a terminating run from [s] *)
+(** [reach s s']: every terminating run from [s'] is a terminating run from [s], and every
+    terminating run from [s] passes through [s'] (with no more fuel) *)
 Definition reach (s s' : bcst) : Prop :=
-  exists n, forall f o, bexec f s' = o -> bterminal o -> bexec (n + f) s = o.
+  (exists n, forall f o, bexec f s' = o -> bterminal o -> bexec (n + f) s = o) /\
+  (forall g o, bexec g s = o -> bterminal o -> exists g', (g' <= g)%nat /\ bexec g' s' = o).
 Definition reach_stop (s : bcst) (io : iost) : Prop :=
   exists n s', bexec n s = Stopped s' /\ bc_io s' = io.
 
 Lemma reach_refl : forall s, reach s s.
-Proof. intros s. exists 0%nat. intros f o H _. exact H. Qed.
+Proof.
+  intros s. split; [exists 0%nat; intros f o H _; exact H|]. intros g o H _. exists g. split; [lia|exact H].
+Qed.
 Lemma reach_trans : forall a b c, reach a b -> reach b c -> reach a c.
 Proof.
-  intros a b c (n1 & H1) (n2 & H2). exists (n1 + n2)%nat. intros f o H T.
-  rewrite <- Nat.add_assoc. apply H1; [|exact T]. apply H2; assumption.
+  intros a b c ((n1 & H1) & B1) ((n2 & H2) & B2). split.
+  - exists (n1 + n2)%nat. intros f o H T. rewrite <- Nat.add_assoc. apply H1; [|exact T]. apply H2; assumption.
+  - intros g o H T. destruct (B1 g o H T) as (g1 & L1 & E1). destruct (B2 g1 o E1 T) as (g2 & L2 & E2).
+    exists g2. split; [lia|exact E2].
 Qed.
 Lemma reach_steps : forall n s s', (forall f, bexec (n + f) s = bexec f s') -> reach s s'.
-Proof. intros n s s' H. exists n. intros f o E _. rewrite H. exact E. Qed.
+Proof.
+  intros n s s' H. split; [exists n; intros f o E _; rewrite H; exact E|].
+  intros g o E T. destruct (Nat.le_gt_cases n g) as [L|L].
+  - exists (g - n)%nat. split; [lia|]. rewrite <- H. replace (n + (g - n))%nat with g by lia. exact E.
+  - exfalso. pose proof (bexec_mono g s o E T n ltac:(lia)) as E2. specialize (H 0%nat). rewrite Nat.add_0_r in H.
+    rewrite H in E2. cbn in E2. rewrite <- E2 in T. exact T.
+Qed.
+(** one exact step: strictly less fuel is left *)
+Lemma step_back : forall s s', (forall f, bexec (S f) s = bexec f s') ->
+  forall g o, bexec g s = o -> bterminal o -> exists g', (g' < g)%nat /\ bexec g' s' = o.
+Proof.
+  intros s s' H g o E T. destruct g as [|g]; [cbn in E; subst o; contradiction|]. exists g. split; [lia|]. rewrite <- H. exact E.
+Qed.
 Lemma reach_then_stop : forall a b io, reach a b -> reach_stop b io -> reach_stop a io.
 Proof.
-  intros a b io (n1 & H1) (n2 & s' & H2 & I). exists (n1 + n2)%nat, s'. split; [|exact I]. apply H1; [exact H2|exact Logic.I].
+  intros a b io ((n1 & H1) & _) (n2 & s' & H2 & I). exists (n1 + n2)%nat, s'. split; [|exact I]. apply H1; [exact H2|exact Logic.I].
 Qed.
 
 (** ** re-anchoring *)
@@ -889,17 +908,16 @@ Qed.
 Lemma region_sound : forall A st si sb pre seg st1 rest, Rel A st si sb ->
   forallb is_simple pre = true -> sym_region w pre seg st = Some st1 ->
   (forall j, (j < length seg)%nat -> code_at code (bc_pc sb + Z.of_nat j) = nth_error seg j) ->
-  forall f,
-  (exists si1 sb1, ir_exec w e false (length pre + f) (pre ++ rest) si = ir_exec w e false f rest si1
+  (exists si1 sb1, (forall f, ir_exec w e false (length pre + f) (pre ++ rest) si = ir_exec w e false f rest si1)
        /\ reach sb sb1 /\ Rel A st1 si1 sb1 /\ bc_pc sb1 = bc_pc sb + Z.of_nat (length seg))
-  \/ (exists si', ir_exec w e false (length pre + f) (pre ++ rest) si = Stopped si' /\ reach_stop sb (ir_io si')).
+  \/ (exists si', (forall f, ir_exec w e false (length pre + f) (pre ++ rest) si = Stopped si') /\ reach_stop sb (ir_io si')).
 Proof.
-  intros A st si sb pre seg st1 rest R SP H AT f. unfold sym_region in H.
+  intros A st si sb pre seg st1 rest R SP H AT. unfold sym_region in H.
   destruct (sym_ir w pre st) as [sti evi] eqn:SI. destruct (sym_bc w seg st) as [[stb evb]|] eqn:SB; [|discriminate].
   destruct (ev_eq w evi evb && (s_n sti =? s_n stb)) eqn:C; [|discriminate]. injection H as <-.
   apply andb_prop in C. destruct C as [EV NN]. apply Z.eqb_eq in NN.
   pose proof R as (RI0 & RB0 & IO & AG & NZ).
-  pose proof (sym_ir_sound pre SP A st si sti evi rest f RI0 SI) as HI.
+  pose proof (sym_ir_sound pre SP A st si sti evi rest RI0 SI) as HI.
   destruct (sym_ir_frame _ _ _ _ SI) as (FI1 & FI2 & FI3 & FI4).
   rewrite (ev_eq_sound A _ _ EV), IO in HI.
   pose proof (sym_bc_sound seg A st sb stb evb RB0 SB AT) as HB.
@@ -1109,13 +1127,20 @@ Lemma scan_unroll : forall s c sh, code_at code (bc_pc s) = Some (Scan c sh) -> 
 Proof.
   intros s c sh CA NZ.
   assert (CA' : code_at code (bc_pc (bc_move s sh)) = Some (Scan c sh)) by exact CA.
-  exists 1%nat. intros f o H T. destruct f as [|f]; [cbn in H; subst o; contradiction|].
-  rewrite (bexec_scan _ c sh f CA') in H.
-  change (1 + S f)%nat with (S (S f)). rewrite (bexec_scan _ c sh (S f) CA).
-  change (bc_scan (S (S f)) c sh s) with (if bc_mem s c =? 0 then Some s else bc_scan (S f) c sh (bc_move s sh)).
-  rewrite NZ.
-  destruct (bc_scan (S f) c sh (bc_move s sh)) as [s'|] eqn:SC; [|subst o; contradiction].
-  apply (bexec_mono f _ _ H T). lia.
+  split.
+  - exists 1%nat. intros f o H T. destruct f as [|f]; [cbn in H; subst o; contradiction|].
+    rewrite (bexec_scan _ c sh f CA') in H.
+    change (1 + S f)%nat with (S (S f)). rewrite (bexec_scan _ c sh (S f) CA).
+    change (bc_scan (S (S f)) c sh s) with (if bc_mem s c =? 0 then Some s else bc_scan (S f) c sh (bc_move s sh)).
+    rewrite NZ.
+    destruct (bc_scan (S f) c sh (bc_move s sh)) as [s'|] eqn:SC; [|subst o; contradiction].
+    apply (bexec_mono f _ _ H T). lia.
+  - intros g o H T. exists g. split; [lia|]. destruct g as [|g]; [cbn in H; subst o; contradiction|].
+    rewrite (bexec_scan _ c sh g CA) in H. rewrite (bexec_scan _ c sh g CA').
+    change (bc_scan (S g) c sh s) with (if bc_mem s c =? 0 then Some s else bc_scan g c sh (bc_move s sh)) in H.
+    rewrite NZ in H.
+    destruct (bc_scan g c sh (bc_move s sh)) as [s'|] eqn:SC; [|subst o; contradiction].
+    rewrite (bc_scan_mono _ _ _ _ _ SC (S g) ltac:(lia)). exact H.
 Qed.
 
 Lemma all_agree_filter : forall st, all_agree w st = true -> filter (fun k => negb (agree w st k)) (TV.keys st) = [].
@@ -1217,7 +1242,7 @@ Proof.
   { intros o EO.
     assert (AT : forall j, (j < length seg)%nat -> code_at code (bc_pc sb + Z.of_nat j) = nth_error seg j).
     { intros j J. rewrite P, SEG. apply segment_at; [exact PC0|rewrite <- SEG; exact J]. }
-    destruct (region_sound A st si sb pre seg st1 rest R SP SR AT f) as [(si1 & sb1 & E1 & RE & R1 & P1)|(si' & E1 & RS)].
+    destruct (region_sound A st si sb pre seg st1 rest R SP SR AT) as [(si1 & sb1 & E1 & RE & R1 & P1)|(si' & E1 & RS)].
     2:{ rewrite E1 in EO. subst o. exact RS. }
     rewrite E1 in EO. subst o. apply (SimC_reach _ sb sb1 _ _ RE). rewrite P in P1.
     set (pc1 := pc + Z.of_nat (length seg)) in *.
@@ -1331,6 +1356,317 @@ Proof.
   - apply K. rewrite <- EI. symmetry in EO. apply (ir_exec_mono w e f insts si _ EO I). lia.
 Qed.
 
+(** ** the converse: a terminating bytecode run forces the IR run to terminate *)
+Definition btermN (g : nat) (s : bcst) : Prop := exists o, bexec g s = o /\ bterminal o.
+Definition iterm (insts : list instr) (si : irst) : Prop :=
+  exists f o, ir_exec w e false f insts si = o /\ iterminal o.
+
+Lemma btermN_reach : forall g s s', reach s s' -> btermN g s -> exists g', (g' <= g)%nat /\ btermN g' s'.
+Proof.
+  intros g s s' (_ & B) (o & E & T). destruct (B g o E T) as (g' & L & E'). exists g'. split; [exact L|]. exists o. split; assumption.
+Qed.
+Lemma btermN_step : forall g s s', (forall f, bexec (S f) s = bexec f s') -> btermN g s -> exists g', (g' < g)%nat /\ btermN g' s'.
+Proof.
+  intros g s s' H (o & E & T). destruct (step_back s s' H g o E T) as (g' & L & E'). exists g'. split; [exact L|]. exists o. split; assumption.
+Qed.
+Lemma btermN_mono : forall g g' s, btermN g s -> (g <= g')%nat -> btermN g' s.
+Proof. intros g g' s (o & E & T) L. exists o. split; [apply (bexec_mono g s o E T g' L)|exact T]. Qed.
+
+Lemma iterm_nil : forall si, iterm [] si.
+Proof. intros si. exists 1%nat, (Done si). split; [reflexivity|exact I]. Qed.
+
+Lemma iterm_loop_zero : forall cond shift body once rest s, (ir_read s cond =? 0) = true -> iterm rest s ->
+  iterm (ILoop cond shift body once :: rest) s.
+Proof.
+  intros cond shift body once rest s Z0 (f & o & E & T). exists (S f), o. split; [|exact T]. rewrite ir_loop_unfold, Z0. exact E.
+Qed.
+
+Lemma iterm_loop_step : forall cond shift body once rest s, (ir_read s cond =? 0) = false ->
+  (exists f s', ir_exec w e false f body s = Stopped s') \/
+  (exists f s2, ir_exec w e false f body s = Done s2 /\ iterm (ILoop cond shift body once :: rest) (ir_move s2 shift)) ->
+  iterm (ILoop cond shift body once :: rest) s.
+Proof.
+  intros cond shift body once rest s NZ [(f & s' & E)|(f & s2 & E & (f2 & o & E2 & T))].
+  - exists (S f), (Stopped s'). split; [|exact I]. rewrite ir_loop_unfold, NZ, E. reflexivity.
+  - exists (S (f + f2)), o. split; [|exact T]. rewrite ir_loop_unfold, NZ.
+    rewrite (ir_exec_mono w e f body s _ E I (f + f2)%nat ltac:(lia)).
+    apply (ir_exec_mono w e f2 _ _ _ E2 T). lia.
+Qed.
+
+Lemma iterm_if : forall cond shift body rest s,
+  ((ir_read s cond =? 0) = true /\ iterm rest s) \/
+  ((ir_read s cond =? 0) = false /\
+     ((exists f s', ir_exec w e false f body s = Stopped s') \/
+      (exists f s2, ir_exec w e false f body s = Done s2 /\ iterm rest (ir_move s2 shift)))) ->
+  iterm (IIf cond shift body :: rest) s.
+Proof.
+  intros cond shift body rest s [(Z0 & (f & o & E & T))|(NZ & [(f & s' & E)|(f & s2 & E & (f2 & o & E2 & T))])].
+  - exists (S f), o. split; [|exact T]. rewrite ir_if_unfold, Z0. exact E.
+  - exists (S f), (Stopped s'). split; [|exact I]. rewrite ir_if_unfold, NZ, E. reflexivity.
+  - exists (S (f + f2)), o. split; [|exact T]. rewrite ir_if_unfold, NZ.
+    rewrite (ir_exec_mono w e f body s _ E I (f + f2)%nat ltac:(lia)).
+    apply (ir_exec_mono w e f2 _ _ _ E2 T). lia.
+Qed.
+
+Lemma iterm_body_cases : forall body s, iterm body s ->
+  (exists f s', ir_exec w e false f body s = Stopped s') \/ (exists f s2, ir_exec w e false f body s = Done s2).
+Proof.
+  intros body s (f & o & E & T). destruct o as [s2|s2|s2|p s2|s2]; try contradiction; [right|left]; exists f, s2; exact E.
+Qed.
+
+Section LoopB.
+Variables (cond shift : Z) (body rest' : list instr) (once : bool).
+Variables (head back : Z) (inv exitf : facts).
+Variables (pc2 pc' : Z) (stb stb' st' : sst).
+Notation fi := (st_of_facts inv).
+Notation ent := (add_nz (st_of_facts inv) (e_var (if memz cond (f_d inv) then axi cond else acell cond))).
+Notation LOOP := (ILoop cond shift body once :: rest').
+Hypothesis BODY : forall f A si sb, Rel A ent si sb -> bc_pc sb = head -> SimC (ir_exec w e false f body si) sb pc2 stb.
+Hypothesis BODYB : forall g A si sb, Rel A ent si sb -> bc_pc sb = head -> btermN g sb -> iterm body si.
+Hypothesis RESTB : forall g A si sb, Rel A (if once then once_exit w stb' cond else st_of_facts exitf) si sb -> bc_pc sb = back + 1 ->
+  btermN g sb -> iterm rest' si.
+Hypothesis ENTX : once = true \/ entails w (once_exit w stb' cond) exitf = true.
+Hypothesis MOVE : after_move w code pc2 stb shift = Some (back, stb').
+Hypothesis BACKI : exists off, code_at code back = Some (BrNZ cond off) /\ back + off = head.
+Hypothesis AGB : agree w stb' cond = true.
+Hypothesis ENT : entails w stb' inv = true.
+
+Lemma head_back : forall g,
+  (forall g' A si sb, (g' <= g)%nat -> Rel A stb' si sb -> bc_pc sb = back -> btermN g' sb -> iterm LOOP si) ->
+  forall si sb, Rel (anchor_of si sb) fi si sb -> bc_pc sb = head -> ir_read si cond <> 0 -> btermN g sb ->
+  (exists f s', ir_exec w e false f body si = Stopped s') \/
+  (exists f s2, ir_exec w e false f body si = Done s2 /\ iterm LOOP (ir_move s2 shift)).
+Proof.
+  intros g BK si sb R P NZc BT.
+  pose proof (head_fact si sb inv cond R NZc) as RE.
+  destruct (iterm_body_cases body si (BODYB g _ si sb RE P BT)) as [S|(f & s2 & E)]; [left; exact S|]. right.
+  exists f, s2. split; [exact E|].
+  pose proof (BODY f _ si sb RE P) as HB. rewrite E in HB. cbn [SimC] in HB.
+  destruct HB as (A2 & sb2 & RE2 & P2 & R2).
+  destruct (after_move_sound _ _ _ _ _ A2 s2 sb2 MOVE R2 P2) as (A3 & sb3 & RE3 & P3 & R3).
+  destruct (btermN_reach g sb sb3 (reach_trans _ _ _ RE2 RE3) BT) as (g3 & L3 & BT3).
+  apply (BK g3 A3 _ sb3 L3 R3 P3 BT3).
+Qed.
+
+Lemma back_back : forall g A si sb, Rel A stb' si sb -> bc_pc sb = back -> btermN g sb -> iterm LOOP si.
+Proof.
+  induction g as [g IH] using lt_wf_ind. intros A si sb R P BT.
+  destruct BACKI as (off & CA & TG). rewrite <- P in CA.
+  destruct (bexec_at 0 sb _ CA) as (_ & NL & FE).
+  pose proof (Rel_mem A stb' si sb cond R AGB) as EQ.
+  pose proof (entails_sound A stb' si sb inv R ENT) as RA.
+  destruct (ir_read si cond =? 0) eqn:Z0.
+  - apply iterm_loop_zero; [exact Z0|].
+    assert (ST : forall f, bexec (S f) sb = bexec f (next sb)).
+    { intros f. cbn [bc_exec]. rewrite NL, FE. cbn [andb]. rewrite <- EQ, Z0. reflexivity. }
+    destruct (btermN_step g sb (next sb) ST BT) as (g' & L & BT').
+    assert (RX : Rel A (once_exit w stb' cond) si sb).
+    { unfold once_exit. destruct (nonzero_in w stb' (cell_i stb' cond)) eqn:NZC; [|exact R].
+      exfalso. apply (nonzero_in_sound A stb' si sb _ R NZC). destruct R as (RI1 & _).
+      rewrite <- (RI_read A stb' si cond RI1). apply Z.eqb_eq. exact Z0. }
+    destruct once eqn:ON.
+    + apply (RESTB g' A si (next sb)); [|cbn; lia|exact BT']. apply (Rel_ext A _ si sb); try reflexivity. exact RX.
+    + destruct ENTX as [EX|EX]; [discriminate|].
+      apply (RESTB g' (anchor_of si sb) si (next sb)); [|cbn; lia|exact BT']. apply (Rel_ext _ _ si sb); try reflexivity.
+      apply (entails_sound A _ si sb exitf RX EX).
+  - apply iterm_loop_step; [exact Z0|].
+    assert (ST : forall f, bexec (S f) sb = bexec f (bc_set_pc sb (bc_pc sb + off))).
+    { intros f. cbn [bc_exec]. rewrite NL, FE. cbn [andb]. rewrite <- EQ, Z0. reflexivity. }
+    destruct (btermN_step g sb _ ST BT) as (g' & L & BT').
+    apply (head_back g') with (sb := bc_set_pc sb (bc_pc sb + off)).
+    + intros g2 A2 si2 sb2 L2 R2 P2 BT2. apply (IH g2 ltac:(lia) A2 si2 sb2 R2 P2 BT2).
+    + rewrite (anchor_ext si sb si (bc_set_pc sb (bc_pc sb + off))) by reflexivity.
+      apply (Rel_ext _ fi si sb); try reflexivity. exact RA.
+    + cbn. lia.
+    + apply Z.eqb_neq. exact Z0.
+    + exact BT'.
+Qed.
+End LoopB.
+
+Section ScanB.
+Variables (cond shift : Z) (rest' : list instr) (once : bool) (pc1 : Z) (st1 : sst).
+Notation LOOP := (ILoop cond shift [] once :: rest').
+Hypothesis CAS : code_at code pc1 = Some (Scan cond shift).
+Hypothesis AGC : agree w st1 cond = true.
+Hypothesis RESTB : forall g A si sb, Rel A (if shift =? 0 then st1 else moved w st1 shift) si sb -> bc_pc sb = pc1 + 1 ->
+  btermN g sb -> iterm rest' si.
+
+Lemma scan0_back : shift = 0 -> forall g A si sb, Rel A st1 si sb -> bc_pc sb = pc1 -> btermN g sb -> iterm LOOP si.
+Proof.
+  intros S0 g A si sb R P (o & E & T). rewrite <- P in CAS.
+  destruct g as [|g]; [cbn in E; subst o; contradiction|].
+  rewrite (bexec_scan _ cond shift g CAS) in E.
+  pose proof (Rel_mem A st1 si sb cond R AGC) as EQ.
+  destruct (bc_mem sb cond =? 0) eqn:Z0.
+  - apply iterm_loop_zero; [rewrite EQ; exact Z0|]. cbn [bc_scan] in E. rewrite Z0 in E.
+    apply (RESTB g A si (next sb)); [|cbn; lia|exists o; split; assumption].
+    rewrite S0. cbn. apply (Rel_ext A st1 si sb); try reflexivity. exact R.
+  - exfalso. rewrite S0 in E. rewrite (scan0_none (S g) cond sb Z0) in E. subst o. exact T.
+Qed.
+
+Hypothesis ALL : all_agree w st1 = true.
+Hypothesis SNZ : shift <> 0.
+
+Lemma scanN_back : forall k A si sb s', Rel A (moved w st1 shift) si sb -> bc_pc sb = pc1 ->
+  bc_scan k cond shift sb = Some s' -> (forall g, btermN g (next s') -> exists g', btermN g' (next s')) ->
+  (exists g, btermN g (next s')) -> iterm LOOP si.
+Proof.
+  induction k as [|k IH]; intros A si sb s' R P SC _ BT; [discriminate|].
+  assert (EQ : ir_read si cond = bc_mem sb cond).
+  { pose proof R as ((PI & _) & (PB & _) & _). unfold ir_read, bc_mem. rewrite PI, PB.
+    apply (same_value A _ si sb cond R). right. rewrite (moved_keys st1 shift ALL). intros []. }
+  cbn [bc_scan] in SC. destruct (bc_mem sb cond =? 0) eqn:Z0.
+  - injection SC as <-. apply iterm_loop_zero; [rewrite EQ; exact Z0|]. destruct BT as (g & BT).
+    apply (RESTB g A si (next sb)); [|cbn; lia|exact BT].
+    destruct (shift =? 0) eqn:S0; [apply Z.eqb_eq in S0; contradiction|].
+    apply (Rel_ext A _ si sb); try reflexivity. exact R.
+  - apply iterm_loop_step; [rewrite EQ; exact Z0|]. right. exists 1%nat, si. split; [reflexivity|].
+    apply (IH (anchor_of (ir_move si shift) (bc_move sb shift)) _ (bc_move sb shift) s'); [|cbn; exact P|exact SC|intros g H; exists g; exact H|exact BT].
+    rewrite <- (moved_idem st1 shift ALL). apply (moved_sound A). exact R.
+Qed.
+End ScanB.
+
+Lemma tv_block_back : forall n fuse insts pc stop st cs pc' st' cs',
+  tv_block n w fuse code insts pc stop st cs = Some (pc', st', cs') -> 0 <= pc ->
+  forall g A si sb, Rel A st si sb -> bc_pc sb = pc -> btermN g sb -> iterm insts si.
+Proof.
+  induction n as [|n IH]; intros fuse insts pc stop st cs pc' st' cs' H PC0 g A si sb R P BT; [discriminate|].
+  pose proof H as HALL. cbn [tv_block] in H.
+  destruct (split_simple insts) as [pre rest] eqn:SS.
+  destruct (split_simple_spec _ _ _ SS) as (EI & SP & HR).
+  remember (bc_segment code pc stop (next_head fuse rest cs)) as seg eqn:SEG.
+  destruct (sym_region w pre seg st) as [st1|] eqn:SR; [|discriminate].
+  assert (AT : forall j, (j < length seg)%nat -> code_at code (bc_pc sb + Z.of_nat j) = nth_error seg j).
+  { intros j J. rewrite P, SEG. apply segment_at; [exact PC0|rewrite <- SEG; exact J]. }
+  destruct (region_sound A st si sb pre seg st1 rest R SP SR AT) as [(si1 & sb1 & E1 & RE & R1 & P1)|(si' & E1 & RS)].
+  2:{ exists (length pre + 0)%nat, (Stopped si'). split; [rewrite EI; apply E1|exact I]. }
+  assert (LIFT : iterm rest si1 -> iterm insts si).
+  { intros (f & o & E & T). exists (length pre + f)%nat, o. split; [rewrite EI, E1; exact E|exact T]. }
+  apply LIFT. clear LIFT.
+  destruct (btermN_reach g sb sb1 RE BT) as (g1 & L1 & BT1).
+  rewrite P in P1. set (pc1 := pc + Z.of_nat (length seg)) in *.
+  assert (PC1 : 0 <= pc1) by (unfold pc1; lia).
+  clear E1 RE AT R P SR BT si sb L1 g HALL.
+  destruct rest as [|i rest']; [apply iterm_nil|].
+  destruct i as [src|dst|calcs|cond shift body once|cond shift body]; try discriminate.
+  - (* loop *)
+    destruct (code_at code pc1) as [b|] eqn:CB; [|discriminate].
+    destruct (fuse && is_nil body) eqn:FN.
+    + apply andb_prop in FN. destruct FN as [_ NB]. apply is_nil_spec in NB. subst body.
+      destruct b as [|c sh| | | | | | | | |]; try discriminate.
+      destruct ((c =? cond) && (sh =? shift) && (pc1 <? stop) && agree w st1 cond && ((shift =? 0) || all_agree w st1)) eqn:CK; [|discriminate].
+      split_ands.
+      repeat match goal with Hx : (_ =? _) = true |- _ => apply Z.eqb_eq in Hx end. subst c sh.
+      rewrite <- P1 in CB.
+      assert (RESTB : forall g A si sb, Rel A (if shift =? 0 then st1 else moved w st1 shift) si sb -> bc_pc sb = bc_pc sb1 + 1 ->
+                btermN g sb -> iterm rest' si).
+      { intros g0 A0 si0 sb0 R0 P0 B0. apply (IH _ _ _ _ _ _ _ _ _ H ltac:(lia) g0 A0 si0 sb0 R0); [rewrite P0, P1; reflexivity|exact B0]. }
+      match goal with Hx : agree w st1 cond = true |- _ => pose proof Hx as AGC end.
+      destruct (Z.eq_dec shift 0) as [S0|SNZ].
+      * exact (scan0_back cond shift rest' once (bc_pc sb1) st1 CB AGC RESTB S0 g1 A si1 sb1 R1 eq_refl BT1).
+      * assert (ALL : all_agree w st1 = true).
+        { match goal with Hx : (_ || _) = true |- _ => apply orb_prop in Hx; destruct Hx as [Hx|Hx]; [apply Z.eqb_eq in Hx; contradiction|exact Hx] end. }
+        destruct BT1 as (o & E & T). destruct g1 as [|g1]; [cbn in E; subst o; contradiction|].
+        rewrite (bexec_scan _ cond shift g1 CB) in E.
+        destruct (bc_scan (S g1) cond shift sb1) as [s'|] eqn:SC; [|subst o; contradiction].
+        apply (scanN_back cond shift rest' once (bc_pc sb1) st1 RESTB ALL SNZ (S g1) (anchor_of si1 sb1) si1 sb1 s'
+                 (scan_start shift st1 ALL A si1 sb1 R1) eq_refl SC).
+        -- intros g0 H0. exists g0. exact H0.
+        -- exists g1, o. split; assumption.
+    + destruct cs as [|[head back inv exitf|?] cs1]; try discriminate.
+      match type of H with (if ?c then _ else _) = _ => destruct c eqn:CK; [|discriminate] end.
+      destruct (tv_block n w fuse code body head back _ cs1) as [[[pc2 stb] cs2]|] eqn:TB; [|discriminate].
+      destruct (after_move w code pc2 stb shift) as [[pc3 stb']|] eqn:AM; [|discriminate].
+      match type of H with (if ?c then _ else _) = _ => destruct c eqn:CK2; [|discriminate] end.
+      split_ands.
+      repeat match goal with Hx : (_ <=? _) = true |- _ => apply Z.leb_le in Hx end.
+      match goal with Hx : (pc3 =? back) = true |- _ => apply Z.eqb_eq in Hx; subst pc3 end.
+      assert (HEADPOS : 0 <= head /\ 0 <= back + 1).
+      { destruct once; split_ands; repeat match goal with Hx : (_ =? _) = true |- _ => apply Z.eqb_eq in Hx end; lia. }
+      assert (BODY : forall f A si sb, Rel A (add_nz (st_of_facts inv) (e_var (if memz cond (f_d inv) then axi cond else acell cond))) si sb ->
+                bc_pc sb = head -> SimC (ir_exec w e false f body si) sb pc2 stb).
+      { intros f0 A0 si0 sb0 R0 P0. apply (tv_block_sound _ _ _ _ _ _ _ _ _ _ TB ltac:(lia) f0 A0 si0 sb0 R0 P0). }
+      assert (BODYB : forall g A si sb, Rel A (add_nz (st_of_facts inv) (e_var (if memz cond (f_d inv) then axi cond else acell cond))) si sb ->
+                bc_pc sb = head -> btermN g sb -> iterm body si).
+      { intros g0 A0 si0 sb0 R0 P0 B0. apply (IH _ _ _ _ _ _ _ _ _ TB ltac:(lia) g0 A0 si0 sb0 R0 P0 B0). }
+      assert (RESTB : forall g A si sb, Rel A (if once then once_exit w stb' cond else st_of_facts exitf) si sb -> bc_pc sb = back + 1 ->
+                btermN g sb -> iterm rest' si).
+      { intros g0 A0 si0 sb0 R0 P0 B0. apply (IH _ _ _ _ _ _ _ _ _ H ltac:(lia) g0 A0 si0 sb0 R0 P0 B0). }
+      assert (BACKI : exists off, code_at code back = Some (BrNZ cond off) /\ back + off = head).
+      { destruct (code_at code back) as [[| | | | | |c off| | | |]|]; try discriminate. split_ands.
+        repeat match goal with Hx : (_ =? _) = true |- _ => apply Z.eqb_eq in Hx end. subst c. exists off. split; [reflexivity|assumption]. }
+      assert (ENTX : once = true \/ entails w (once_exit w stb' cond) exitf = true).
+      { match goal with Hx : (once || entails w (once_exit w stb' cond) exitf) = true |- _ =>
+          apply orb_prop in Hx; destruct Hx as [Hx|Hx]; [left|right]; exact Hx end. }
+      pose proof (back_back cond shift body rest' once head back inv exitf pc2 stb stb' BODY BODYB RESTB ENTX AM BACKI ltac:(assumption) ltac:(assumption)) as BK.
+      pose proof (entails_sound A st1 si1 sb1 inv R1 ltac:(assumption)) as RA.
+      assert (HB : forall g si sb, Rel (anchor_of si sb) (st_of_facts inv) si sb -> bc_pc sb = head -> ir_read si cond <> 0 -> btermN g sb ->
+                 iterm (ILoop cond shift body once :: rest') si).
+      { intros g0 si0 sb0 R0 P0 NZ0 B0. apply iterm_loop_step; [apply Z.eqb_neq; exact NZ0|].
+        apply (head_back cond shift body rest' once head back inv pc2 stb stb' BODY BODYB AM g0) with (sb := sb0); try assumption.
+        intros g2 A2 si2 sb2 _ R2 P2 B2. apply (BK g2 A2 si2 sb2 R2 P2 B2). }
+      destruct once.
+      * split_ands. match goal with Hx : (pc1 =? head) = true |- _ => apply Z.eqb_eq in Hx end.
+        assert (NZc : ir_read si1 cond <> 0).
+        { pose proof R1 as (RI1 & _). rewrite (RI_read A st1 si1 cond RI1).
+          match goal with Hx : nonzero_in w st1 _ = true |- _ => apply (nonzero_in_sound A st1 si1 sb1 _ R1 Hx) end. }
+        apply (HB g1 si1 sb1 RA ltac:(lia) NZc BT1).
+      * split_ands. destruct b as [| | | | |c off| | | | |]; try discriminate. split_ands.
+        repeat match goal with Hx : (_ =? _) = true |- _ => apply Z.eqb_eq in Hx end. subst c.
+        rewrite <- P1 in CB. destruct (bexec_at 0 sb1 _ CB) as (_ & NL & FE).
+        pose proof (Rel_mem A st1 si1 sb1 cond R1 ltac:(assumption)) as EQ.
+        destruct (ir_read si1 cond =? 0) eqn:Z0.
+        -- apply iterm_loop_zero; [exact Z0|].
+           assert (ST : forall f, bexec (S f) sb1 = bexec f (bc_set_pc sb1 (bc_pc sb1 + off))).
+           { intros f. cbn [bc_exec]. rewrite NL, FE. cbn [andb]. rewrite <- EQ, Z0. reflexivity. }
+           destruct (btermN_step g1 sb1 _ ST BT1) as (g' & L & BT').
+           apply (RESTB g' (anchor_of si1 sb1) si1 (bc_set_pc sb1 (bc_pc sb1 + off))); [|cbn; lia|exact BT'].
+           apply (Rel_ext _ _ si1 sb1); try reflexivity.
+           match goal with Hx : (false || entails w st1 exitf) = true |- _ => cbn [orb] in Hx; apply (entails_sound A st1 si1 sb1 exitf R1 Hx) end.
+        -- assert (ST : forall f, bexec (S f) sb1 = bexec f (next sb1)).
+           { intros f. cbn [bc_exec]. rewrite NL, FE. cbn [andb]. rewrite <- EQ, Z0. reflexivity. }
+           destruct (btermN_step g1 sb1 _ ST BT1) as (g' & L & BT').
+           apply (HB g' si1 (next sb1)); [|cbn; lia|apply Z.eqb_neq; exact Z0|exact BT'].
+           rewrite (anchor_ext si1 sb1 si1 (next sb1)) by reflexivity. apply (Rel_ext _ _ si1 sb1); try reflexivity. exact RA.
+  - (* if *)
+    destruct (code_at code pc1) as [[| | | | |c off| | | | |]|] eqn:CB; try discriminate.
+    destruct cs as [|[?|join] cs1]; try discriminate.
+    match type of H with (if ?c then _ else _) = _ => destruct c eqn:CK; [|discriminate] end.
+    destruct (tv_block n w fuse code body (pc1 + 1) (pc1 + off) _ cs1) as [[[pc2 stb] cs2]|] eqn:TB; [|discriminate].
+    destruct (after_move w code pc2 stb shift) as [[pc3 stb']|] eqn:AM; [|discriminate].
+    match type of H with (if ?c then _ else _) = _ => destruct c eqn:CK2; [|discriminate] end.
+    split_ands.
+    repeat match goal with Hx : (_ <=? _) = true |- _ => apply Z.leb_le in Hx end.
+    repeat match goal with Hx : (_ =? _) = true |- _ => apply Z.eqb_eq in Hx end. subst c pc3.
+    rewrite <- P1 in CB. destruct (bexec_at 0 sb1 _ CB) as (_ & NL & FE).
+    pose proof (Rel_mem A st1 si1 sb1 cond R1 ltac:(assumption)) as EQ.
+    apply iterm_if. destruct (ir_read si1 cond =? 0) eqn:Z0.
+    + left. split; [reflexivity|].
+      assert (ST : forall f, bexec (S f) sb1 = bexec f (bc_set_pc sb1 (bc_pc sb1 + off))).
+      { intros f. cbn [bc_exec]. rewrite NL, FE. cbn [andb]. rewrite <- EQ, Z0. reflexivity. }
+      destruct (btermN_step g1 sb1 _ ST BT1) as (g' & L & BT').
+      apply (IH _ _ _ _ _ _ _ _ _ H ltac:(lia) g' (anchor_of si1 sb1) si1 (bc_set_pc sb1 (bc_pc sb1 + off))); [|cbn; lia|exact BT'].
+      apply (Rel_ext _ _ si1 sb1); try reflexivity. apply (entails_sound A st1 si1 sb1 join R1). assumption.
+    + right. split; [reflexivity|].
+      assert (ST : forall f, bexec (S f) sb1 = bexec f (next sb1)).
+      { intros f. cbn [bc_exec]. rewrite NL, FE. cbn [andb]. rewrite <- EQ, Z0. reflexivity. }
+      destruct (btermN_step g1 sb1 _ ST BT1) as (g' & L & BT').
+      assert (RE : Rel A (add_nz st1 (cell_b st1 cond)) si1 (next sb1)).
+      { apply (Rel_ext A _ si1 sb1); try reflexivity. destruct R1 as (RI1 & RB1 & IO1 & AG1 & NZ1).
+        split; [exact RI1|]. split; [exact RB1|]. split; [exact IO1|]. split; [exact AG1|].
+        intros p IN. cbn [add_nz s_nz] in IN. destruct IN as [<-|IN]; [|apply NZ1; exact IN].
+        rewrite <- (agree_sound A st1 cond ltac:(assumption)). rewrite <- (RI_read A st1 si1 cond RI1).
+        apply Z.eqb_neq. exact Z0. }
+      destruct (iterm_body_cases body si1 (IH _ _ _ _ _ _ _ _ _ TB ltac:(lia) g' A si1 (next sb1) RE ltac:(cbn; lia) BT')) as [S|(f & s2 & E)]; [left; exact S|].
+      right. exists f, s2. split; [exact E|].
+      pose proof (tv_block_sound _ _ _ _ _ _ _ _ _ _ TB ltac:(lia) f A si1 (next sb1) RE ltac:(cbn; lia)) as HB. rewrite E in HB. cbn [SimC] in HB.
+      destruct HB as (A2 & sb2 & RE2 & P2 & R2).
+      destruct (after_move_sound _ _ _ _ _ A2 s2 sb2 AM R2 P2) as (A3 & sb3 & RE3 & P3 & R3).
+      destruct (btermN_reach g' (next sb1) sb3 (reach_trans _ _ _ RE2 RE3) BT') as (g3 & L3 & BT3).
+      apply (IH _ _ _ _ _ _ _ _ _ H ltac:(lia) g3 (anchor_of (ir_move s2 shift) sb3) _ sb3); [|exact P3|exact BT3].
+      apply (entails_sound A3 stb' _ sb3 join R3). assumption.
+Qed.
+
 (** ** whole programs *)
 Lemma look_zeros : forall k zs p, look k (map (fun k => (k, [])) zs) = Some p -> p = [].
 Proof.
@@ -1369,7 +1705,7 @@ Proof.
   destruct cs'; [|discriminate].
   pose proof (tv_block_sound _ _ _ _ _ _ _ _ _ _ TB ltac:(lia) f _ (ir0 b) (bc0 b) (rel_init b zs) eq_refl) as S.
   split; intros E; rewrite E in S; cbn [SimC] in S.
-  - destruct S as (A' & sb' & (n & RE) & P & (_ & _ & IO & _)).
+  - destruct S as (A' & sb' & ((n & RE) & _) & P & (_ & _ & IO & _)).
     apply orb_prop in H. destruct H as [H|H].
     + apply Z.eqb_eq in H. exists (n + 1)%nat, sb'. split; [|congruence].
       apply RE; [|exact I]. cbn [bc_exec]. rewrite P, H, Z.eqb_refl. reflexivity.
@@ -1380,6 +1716,34 @@ Proof.
       apply RE; [|exact I]. cbn [bc_exec]. rewrite NL, FE. cbn [next bc_set_pc bc_pc bc_move]. rewrite P.
       replace (pc' + 1 =? len) with true by (symmetry; apply Z.eqb_eq; exact H1). reflexivity.
   - destruct S as (n & s' & E1 & E2). exists n, s'. split; assumption.
+Qed.
+
+(** a terminating bytecode run is matched by the IR run *)
+Lemma bexec_det : forall g1 g2 s o1 o2, bexec g1 s = o1 -> bterminal o1 -> bexec g2 s = o2 -> bterminal o2 -> o1 = o2.
+Proof.
+  intros g1 g2 s o1 o2 E1 T1 E2 T2.
+  rewrite <- (bexec_mono g1 s o1 E1 T1 (g1 + g2)%nat ltac:(lia)). rewrite <- (bexec_mono g2 s o2 E2 T2 (g1 + g2)%nat ltac:(lia)). reflexivity.
+Qed.
+
+Theorem tv_check_back : forall fuse ir zs cs b, tv_check w fuse ir code zs cs = true -> forall g sb',
+  (bexec g (bc0 b) = Done sb' -> exists f si', ir_exec w e false f (snd ir) (ir0 b) = Done si' /\ ir_io si' = bc_io sb') /\
+  (bexec g (bc0 b) = Stopped sb' -> exists f si', ir_exec w e false f (snd ir) (ir0 b) = Stopped si' /\ ir_io si' = bc_io sb').
+Proof.
+  intros fuse ir zs cs b H g sb'. pose proof H as H0. unfold tv_check in H. apply andb_prop in H. destruct H as [_ H].
+  destruct (tv_block (S (isize (snd ir))) w fuse code (snd ir) 0 len (st0 zs) cs) as [[[pc' st'] cs']|] eqn:TB; [|discriminate].
+  assert (CONV : forall o, bexec g (bc0 b) = o -> bterminal o -> exists f oi, ir_exec w e false f (snd ir) (ir0 b) = oi /\ iterminal oi).
+  { intros o E T. apply (tv_block_back _ _ _ _ _ _ _ _ _ _ TB ltac:(lia) g _ (ir0 b) (bc0 b) (rel_init b zs) eq_refl). exists o. split; assumption. }
+  split; intros E.
+  - destruct (CONV _ E I) as (f & oi & EI & TI). destruct oi as [si'|si'|si'|p si'|si']; try contradiction.
+    + destruct (proj1 (tv_check_sound fuse ir zs cs b H0 f si') EI) as (g2 & sb2 & E2 & IO2).
+      pose proof (bexec_det g g2 _ _ _ E I E2 I) as EQ. injection EQ as <-. exists f, si'. split; [exact EI|congruence].
+    + destruct (proj2 (tv_check_sound fuse ir zs cs b H0 f si') EI) as (g2 & sb2 & E2 & IO2).
+      pose proof (bexec_det g g2 _ _ _ E I E2 I) as EQ. discriminate.
+  - destruct (CONV _ E I) as (f & oi & EI & TI). destruct oi as [si'|si'|si'|p si'|si']; try contradiction.
+    + destruct (proj1 (tv_check_sound fuse ir zs cs b H0 f si') EI) as (g2 & sb2 & E2 & IO2).
+      pose proof (bexec_det g g2 _ _ _ E I E2 I) as EQ. discriminate.
+    + destruct (proj2 (tv_check_sound fuse ir zs cs b H0 f si') EI) as (g2 & sb2 & E2 & IO2).
+      pose proof (bexec_det g g2 _ _ _ E I E2 I) as EQ. injection EQ as <-. exists f, si'. split; [exact EI|congruence].
 Qed.
 End Sim.
 
@@ -1395,4 +1759,19 @@ Proof.
   assert (Hw : 0 <= w) by (unfold tv_check in H; apply andb_prop in H; destruct H as [H _]; apply Z.leb_le; exact H).
   unfold ir_run, bc_run. cbn [andb].
   apply (tv_check_sound w Hw e (bp_code p) (fetch_of p) (fetch_instr_at p) fuse ir zs cs budget H fuel si').
+Qed.
+
+(** conversely: a bytecode run that ends is matched by an IR run that ends the same way, so on an
+    accepted pair the two runs end together or diverge together *)
+Theorem tv_sound_back : forall w fuse ir (p : bprog) zs cs e budget, tv_check w fuse ir (bp_code p) zs cs = true ->
+  forall fuel sb',
+  (bc_run w e false budget fuel p = Done sb' ->
+     exists fuel' si', ir_run w e false budget fuel' ir = Done si' /\ ir_io si' = bc_io sb') /\
+  (bc_run w e false budget fuel p = Stopped sb' ->
+     exists fuel' si', ir_run w e false budget fuel' ir = Stopped si' /\ ir_io si' = bc_io sb').
+Proof.
+  intros w fuse ir p zs cs e budget H fuel sb'.
+  assert (Hw : 0 <= w) by (unfold tv_check in H; apply andb_prop in H; destruct H as [H _]; apply Z.leb_le; exact H).
+  unfold ir_run, bc_run. cbn [andb].
+  apply (tv_check_back w Hw e (bp_code p) (fetch_of p) (fetch_instr_at p) fuse ir zs cs budget H fuel sb').
 Qed.
